@@ -18,7 +18,8 @@ MANIFEST = {
     'text': 'TLC checks the round trip, the polygon facts (rotated rectangle with the area, centre and radius of the box), the '
             'tolerance-equality facts (reflexive, symmetric, verdict below / above EPS) and the angle normal form on small '
             'alphabets, then emits cases with the exact expected values: every box of an alphabet for conversions and polygons '
-            '(replayed at scales 1/32..1024, offsets to 8192 and under rigid motions), every one-coordinate change by a delta '
+            '(replayed at scales 1/32..1024 - also per axis: thin-and-tall and wide-and-flat boxes with aspect ratios below 1e-5 and above 1e4 - '
+            'offsets to 8192 and under rigid motions, among them rotations by angles below EPS), every one-coordinate change by a delta '
             'across EPS for both box types in both argument orders (also a box without angle against a box with one: symmetry '
             'and inequality beyond EPS required), and every multiple of pi/8 over +-8 turns.',
     'note': 'Equality verdicts are required outside a band of +-10 % around EPS and only where the f32 inputs still carry the '
